@@ -63,6 +63,8 @@ def build(cases):
            "  logical, parameter :: rel7 = 1 == 1\n"
            "  real :: rel8(nn/2)\n"
            "  logical, parameter :: rel9 = nn >= 2 .and. nn /= 3\n"
+           # a literal continued across two lines, with a blank in front of the break and one behind it
+           "  character(len=60) :: contlit = \"usage: convert [options] &\n      & <input> <output>\"\n"
            "  integer(kind=merge(4, 8, 1 < 2)) :: rel5\n"
            "  type :: holder\n" + "\n".join(comps) + "\n  end type holder\n"
            "contains\n" + "\n".join(procs) + "\n"
@@ -70,6 +72,8 @@ def build(cases):
            "  subroutine nlproc()\n" + "\n".join(nlvars) + "\n    namelist /grp/ " + ", ".join(f"nv{k}" for k, _, _ in cases) + "\n  end subroutine nlproc\n"
            # a character length written after the name, in parentheses
            "  function starlen(line, tag) result(res)\n    character line*(*)\n    character :: tag*(3)\n    character res*(8)\n    res = line // tag\n  end function starlen\n"
+           # attributes given by separate statements (F77 style) are part of what is displayed for a dummy argument
+           "  subroutine attrargs(a, n, w)\n    real a\n    integer n\n    real w\n    intent(inout) a\n    dimension a(n, n)\n    intent(in) :: n\n    optional :: w\n  end subroutine attrargs\n"
            "  function fr(a) result(r)\n    integer, intent(in) :: a(merge(2, 3, 1 < 2))\n    integer :: r(merge(2, 3, 1 < 2))\n    r = a\n  end function fr\n"
            "  function fdiv(k) result(r)\n    integer :: k\n    real, dimension(nn/2) :: r\n    r = k\n  end function fdiv\n"
            "end module m\n")
@@ -229,6 +233,27 @@ def evaluate(job):
                 continue
             if squash(want) not in squash(row.get_text(" ")) or "../" in row.get_text(" "):
                 out.append({"k": None, "tag": "relop", "bad": f"{what}: module page shows {norm(row.get_text(' '))!r}, source has {want}"})
+        sa = subs.get("attrargs")
+        if sa is None:
+            out.append({"k": None, "bad": "subroutine attrargs not reported"})
+        else:
+            aa = {x.name: x for x in sa.args if not isinstance(x, str)}
+            got = {nm: (getattr(v, "intent", ""), squash(getattr(v, "dimension", "") or "") or [squash(t) for t in v.attribs if "dimension" in t.lower()], bool(getattr(v, "optional", False)) or "optional" in [t.lower() for t in v.attribs])
+                   for nm, v in aa.items()}
+            want_a = got.get("a") and got["a"][0] == "inout" and ("(n,n)" in str(got["a"][1]))
+            want_n = got.get("n") and got["n"][0] == "in"
+            want_w = got.get("w") and got["w"][2]
+            if not (want_a and want_n and want_w):
+                out.append({"k": None, "tag": "starlen", "bad": f"dummy arguments with INTENT / DIMENSION / OPTIONAL statements: FORD reports (intent, dimension, optional) = {got}"})
+            soup = BeautifulSoup(open(os.path.join(d, "doc", sa.get_url()), "rb").read(), "html.parser")
+            ptxt = squash(soup.get_text(" ")).lower()
+            for frag in ("intent(inout)", "intent(in)", "optional", "(n,n)"):
+                if frag not in ptxt:
+                    out.append({"k": None, "tag": "starlen", "bad": f"page {sa.get_url()} does not show {frag!r} for the dummy arguments of attrargs"})
+        cl = byname.get("contlit")
+        want_cl = '"usage: convert [options]  <input> <output>"'
+        if cl is None or (cl.initial or "").replace("\xa0", " ") != want_cl:      # FORD shows runs of blanks as non-breaking blanks
+            out.append({"k": None, "tag": "relop", "bad": f"continued literal: source value {want_cl!r}, FORD stores {getattr(cl, 'initial', None)!r}"})
         # a function result whose declaration holds a "/" is shown as declared on the module page
         mtxt = pages["module/m.html"].get_text(" ")
         if "real,dimension(nn/2)" not in squash(mtxt) or "../real" in squash(mtxt):
